@@ -18,6 +18,18 @@ CLAIMS = {
             "Decides a structural necessary condition on ALL paths of ALL allocation entry points: per successful path exactly one atom / one heap contribution / one pair, none on failing paths; restore field coverage; reporters. Not the arithmetic of sizes.",
             "Trusts rustc's MIR and the effect recogniser (Vec method names, ghost counter field names resolved by type); bulk append loop tied to the checked size by C13. Known finding: new_substr small-integer slice counted on the heap.",
             "DESIGN.md 4/C12"),
+    "C15": ("threshold-table extraction from comparison chains / integer matches in MIR (interval path enumeration) and cross-table relations",
+            "Decides the table clause: the length-prefix rows of the writer, of the two length functions, of the canonical check and the decoder caps are mutually consistent and each n-byte row ends at 2^(7n-1) (shortest prefix). ALL rows of ALL five tables; not decode(encode(x)) == x.",
+            "Trusts rustc's MIR and constant evaluation; u32 truncation of atom lengths in serialized_length_atom is harmless because the heap limit is <= u32::MAX (C13/R13c). Round-trip on trees is not decided.",
+            "DESIGN.md 4/C15"),
+    "C27": ("ownership/liveness rule over elaborated MIR: address-exposing casts (PointerExposeProvenance) vs. moves into owners that outlive the loop, with bool-specialised reachability",
+            "Decides that every object whose address is used as a map key is kept alive on every path (T8): the necessary condition whose absence corrupted 119/200 random trees before the fix. Not that the produced tree equals the source tree.",
+            "Trusts rustc's elaborated MIR (a moved local has no drop) and pyo3's Bound::clone being a strong reference.",
+            "DESIGN.md 4/C27"),
+    "C28": ("Python ast table extraction compared with tables extracted from Rust MIR (writer rows, decoder caps, wire constants)",
+            "Decides that the pure-Python codec's tables equal the Rust codec's: writer rows, single-byte rule, reader rejections (prefix-length cap, size cap, truncation), wire constants, integer conversion shape. Not casts/curry/uncurry/run-of-curried.",
+            "Trusts Python's ast module and the Rust-side extraction of C15; behaviour of CPython int.to_bytes/from_bytes is assumed.",
+            "DESIGN.md 4/C28"),
     "C29": ("error-discipline rule over every io::Write call site reachable from the *_limit entry points (resolved callees, closure bodies, From impl summary) + linear normalisation of the limiter test + routing of the Ok value",
             "Decides for EVERY write site in the limited serializers that a writer failure of kind OutOfMemory leaves as EvalErr::OutOfMemory, that the limiter fails iff limit < len (strict) and decrements by the written count, and that the entry points return only bytes that passed the limiter built with the caller's limit. Does not decide that the unlimited serialization is what is written (C15/C17).",
             "Trusts rustc's MIR and callee resolution; io::Write implementations other than LimitedWriter are out of scope (Cursor<Vec<u8>> never fails).",
